@@ -17,7 +17,7 @@ char *strchr(const char *str, int ch) {
 	char *chp = strchrnul(str, ch);
 
 	if (*chp == '\0') {
-		return ch == *chp ? chp : NULL;
+		return (char) ch == '\0' ? chp : NULL;	/* ch is converted to char */
 	}
 
 	return chp;
